@@ -94,6 +94,8 @@ func c07(r *Report) {
 		Check: CmpCheck("page(msg.LC) > page(msg.LCReq) is false", token.LSS, setLCReq, setLC, false)})
 	r.MustReach(MustReach{ID: "C07.progress.list-missing-prevs-restarts", Fn: htl, Cond: CallCheck(Fn("std:errors", "", "Is"), -1, IsTrue), Target: p.FnOrImpl(v2Pkg, "messageSender", "sendState")})
 	r.MustReach(MustReach{ID: "C07.progress.set-decode-failure-falls-back", Fn: hts, Cond: CallCheck(Fn("std:errors", "", "Is"), -1, IsTrue), Target: AnyOf(p.FnOrImpl(v2Pkg, "messageSender", "sendTransactionRangeQuery"), p.FnOrImpl(v2Pkg, "messageSender", "sendState"))})
+	// the fallback State request asks for a strictly lower clock than the page just tried (page start - 1): otherwise it would retry the same page forever
+	r.ArgIs("C07.progress.fallback-asks-lower-page", hts, p.FnOrImpl(v2Pkg, "messageSender", "sendState"), 2, SubConstV(CallV(Fn(v2Pkg, "", "pageClockStart"), -1), 1), 1)
 	c07ErrorsIsArg(r, htl, "ErrPreviousTransactionMissing")
 	c07ErrorsIsArg(r, hts, "ErrDecodeNotPossible")
 
@@ -108,6 +110,8 @@ func c07(r *Report) {
 	}
 	hac := p.Func(v2Pkg, "conversationManager", "hasActiveConversation")
 	r.Gate(Gate{ID: "C07.progress.expired-conversation-does-not-block", Fn: hac, Effect: ReturnsBool(0, true), Check: CallCheck(Fn("std:time", "Time", "After"), -1, IsTrue)})
+	r.ArgIs("C07.progress.expiry-compared-with-now.receiver", hac, Fn("std:time", "Time", "After"), -1, FieldV("conversation", "expiry"), 1)
+	r.ArgIs("C07.progress.expiry-compared-with-now.argument", hac, Fn("std:time", "Time", "After"), 0, NowV(), 1)
 	c07GossipQueue(r)
 	c07Heartbeat(r)
 	c07RangeAgreement(r, hts)
